@@ -7,5 +7,5 @@ MCShapes == CustomShapes
 MCProps == {"C17"}
 MCScript == <<"SetObj", "NewEmpty", "CopyTo", "CopyTo", "FreshObj", "CopyFrom">>
 ASSUME PrintT("SHAPES " \o ToJson(MCShapes))
-INSTANCE Session WITH Shapes <- MCShapes, Script <- MCScript, Deep <- MCDeep, Props <- MCProps, ObjMode <- "all", RawMode <- "plans"
+INSTANCE Session WITH Shapes <- MCShapes, Script <- MCScript, Deep <- MCDeep, Props <- MCProps, ObjMode <- "all", RawMode <- "plans", EmptyMode <- "plain"
 ====
